@@ -28,6 +28,7 @@ import signal
 import time
 
 from harness import vloop
+from drivers.pipeline_exec import work_item
 from wpull.application.app import Application
 from wpull.application.hook import HookStop
 from wpull.errors import ServerError, ProtocolError, NetworkError
@@ -150,7 +151,7 @@ class Run(object):
                 if self.n < run.cfg['kk'][self.p - 1]:
                     self.n += 1
                     run.log(e='src', p=self.p, k='item', v=self.n)
-                    return self.n
+                    return work_item(self.n)
                 run.log(e='src', p=self.p, k='none')
                 return None
 
